@@ -155,5 +155,42 @@ def hasheq_rule(repo, res, rule="HASHEQ"):
                 res.bad(rule, f"{rule}:{ty}.{f}:order", f"`{f}: {fts[f]}` is hashed in iteration order but compared with an `==` that ignores order: values that differ only in order are equal with different hashes, so whether interning merges them depends on the (per-process seeded) hash -- and when it does, one silently replaces the other", "")
             elif f in fts and f in ep:
                 res.ok(rule, f"{rule}:{ty}.{f}:order", f"`{f}: {fts[f]}` hashed in order, compared {'order-sensitively' if ep[f] == 'ordered' else 'by a type whose == is order-sensitive'}", "")
+    # C  enums: a derived Hash feeds every field of every variant; a hand-written `eq` on such an enum must look at every field of
+    #    every variant it takes apart (a field left to `..` / `_` is hashed and not compared)
+    for mod, sty, tr, node, rel in repo.impls:
+        ty = sty.split("<")[0]
+        en = repo.enum(ty)
+        if en is None or not tr or re.sub(r"<.*", "", tr).split("::")[-1] != "PartialEq":
+            continue
+        if "Hash" not in (en.get("derives") or []) and not _impls(repo, ty, "Hash"):
+            continue
+        if _impls(repo, ty, "Hash"):
+            res.undecided(rule, f"{rule}:{ty}:enum-manual-both", "hand-written Hash and PartialEq on an enum: agreement not decided")
+            continue
+        fn = next((f for f in repo.fns.values() if f.name == "eq" and f.self_ty and f.self_ty.split("<")[0] == ty), None)
+        if fn is None:
+            res.undecided(rule, f"{rule}:{ty}:enum-eq", "hand-written PartialEq without an `eq` body")
+            continue
+        n += 1
+        seen = {}
+        for x in A.walk(fn.body):
+            for pat in ([x["pat"]] if isinstance(x.get("pat"), dict) else []):
+                for y in A.walk(pat):
+                    if y.get("k") in ("PStruct", "PTupleStruct") and str(y.get("path", "")).split("::")[0] in (ty, "Self") and "::" in str(y.get("path", "")):
+                        v = y["path"].split("::")[-1]
+                        if y["k"] == "PStruct":
+                            bound = {str(pf["name"]) for pf in y["fields"] if A.pat_bindings(pf["pat"])}
+                        else:
+                            bound = {str(i) for i, e in enumerate(y.get("elems", [])) if A.pat_bindings(e)}
+                        seen.setdefault(v, set()).update(bound)
+        for v in en.get("variants", []):
+            fields = [str(f.get("name") if f.get("name") is not None else i) for i, f in enumerate(v.get("fields", []))]
+            if not fields:
+                continue
+            if v["name"] not in seen:
+                res.undecided(rule, f"{rule}:{ty}::{v['name']}:compared", f"`eq` does not take {ty}::{v['name']} apart by a pattern: which of its fields {fields} it compares is not decided (Hash is derived and feeds all of them)", fn.loc())
+                continue
+            missing = [f for f in fields if f not in seen[v["name"]]]
+            res.check(not missing, rule, f"{rule}:{ty}::{v['name']}:hashed-fields-are-compared", f"derived Hash feeds {fields}; the hand-written eq binds {sorted(seen[v['name']])}" + ("" if not missing else f": {missing} hashed and not compared -- two values that differ only there are equal with different hashes, so an interning set merges them only when their hashes collide (per-process hasher keys: differs from run to run)"), fn.loc())
     res.floor(rule, n, 3)
     return n
